@@ -49,9 +49,19 @@ class CSym(object):
     def __init__(self, func, tus, models=None, symbolic_loops=None, max_paths=64, inputs=None):
         """symbolic_loops: dict loop line or iv name -> symbolic name to use for the iv (body executed once).
         inputs: dict name -> Rat or callable(idx tuple)->Rat overriding the default atoms for parameters."""
+        self.models = models or {}
+        # statement-level calls of other functions of the sources (helpers the code was split into) are read with the helper's body in
+        # place; functions with a model stay calls
+        try:
+            byname = {g.name: g for g in cfront.all_funcs(tus)} if tus else {}
+            which = set(n for n in byname if n not in self.models and n != func.name)
+            called = set(x.name for st, x in cfront.all_exprs(func.body) if x.k == "call")
+            if called & which:
+                func, _done, _kept = cfront.inline_calls(func, byname, which=which, depth=3)
+        except AnalysisError:
+            raise
         self.f = func
         self.tus = tus
-        self.models = models or {}
         self.symloops = symbolic_loops or {}
         self.max_paths = max_paths
         self.inputs = inputs or {}
